@@ -52,7 +52,7 @@ struct Init {
         {   // C01 blocking put/get round trip
             Profile p; p.id = "C01"; p.level = "exploration"; p.technique = "deterministic simulation: seeded schedules over a simulated MPI job, model-based round-trip oracle + independent decoder";
             p.rule = "one seed = one generated program (schema, blocking writes split among 1..6 simulated ranks through random API forms, reads through other forms, reopen) under one seeded schedule; non-trivial = run completed, wrote data and read at least one element back; distinct by program shape x interleaving hash";
-            p.gen = [](uint64_t seed, bool th) { GenParams g; g.max_np = th ? 8 : 6; g.max_data_ops = th ? 24 : 14; g.big = true; g.hints = th; return gen_program(seed, g, "C01"); };
+            p.gen = [](uint64_t seed, bool th) { GenParams g; g.max_np = th ? 8 : 6; g.max_data_ops = th ? 24 : 14; g.big = true; g.hints = th; g.erange = true; return gen_program(seed, g, "C01"); };
             p.check = [](Program &q) { RunOpts o; return run_program(q, o); };
             p.nontrivial = [](const Program &q, const RunResult &r) { return r.completed && r.st.bytes_written > 0 && r.st.bytes_read > 0; };
             p.quick_s = 40; p.thorough_s = 600;
@@ -96,13 +96,13 @@ struct Init {
         };
         auto has_kind = [](const Program &q, int kind) { for (auto &op : q.ops) if (!op.skip && op.kind == kind) return true; return false; };
         simple("C02", "one seed = one program posting iput/iget/bput requests (all forms incl. varn, flexible buffers) on 1..6 ranks with different request counts per rank, completed by wait/wait_all in random partitions (explicit id lists in random order, NC_REQ_ALL/GET/PUT, NULL and unknown ids, cancel), knobs NC_REQUEST_CHUNK/abuf table size randomised; non-trivial = at least one request completed by a wait and data transferred; distinct by program shape x interleaving",
-               [](bool th) { GenParams g; g.nonblocking = true; g.iget_overlap_strict = true; g.max_np = th ? 8 : 6; g.max_data_ops = th ? 30 : 18; g.knobs = true; g.hints = true; g.big = th; return g; },
+               [](bool th) { GenParams g; g.nonblocking = true; g.iget_overlap_strict = true; g.max_np = th ? 8 : 6; g.max_data_ops = th ? 30 : 18; g.knobs = true; g.hints = true; g.big = th; g.erange = true; return g; },
                [has_kind](const Program &q, const RunResult &r) { return r.completed && has_kind(q, OP_WAIT) && r.st.bytes_written > 0; });
         simple("C03", "one seed = one schema-heavy program (UTF-8 names, attributes of every type incl. zero length, fixed and record variables, _enddef alignment arguments, alignment hints, redefinitions, data-mode metadata updates) with a raw-image checkpoint after every op: strict header decode by the independent codec, layout rules, library reports vs file; non-trivial = at least 2 checkpoints decoded a file with >= 1 variable",
                [](bool th) { GenParams g; g.checkpoint_each = true; g.utf8_names = true; g.align_args = true; g.hints = true; g.redef = true; g.meta_heavy = true; g.max_np = 4; g.max_data_ops = th ? 14 : 8; g.multi_file = th; return g; },
                [](const Program &q, const RunResult &r) { int n = 0; for (auto &op : q.ops) if (!op.skip && op.kind == OP_CHECKPOINT) n++; return r.completed && n >= 2 && r.st.bytes_written > 0; });
         simple("C05", "one seed = one history of collective / independent / nonblocking writes to record variables by subsets of 2..8 ranks (strided record indices, zero-length, rewrites), mode switches, sync/sync_numrecs, partial waits, redef, reopen; every rank's reported record count is checked after every op and the header field at every checkpoint; non-trivial = record count grew at least twice on >= 2 ranks",
-               [](bool th) { GenParams g; g.min_np = 2; g.max_np = th ? 8 : 6; g.nonblocking = true; g.redef = true; g.fill = true; g.max_data_ops = th ? 30 : 18; g.checkpoint_each = false; g.atts = false; g.max_dimlen = 3; return g; },
+               [](bool th) { GenParams g; g.min_np = 2; g.max_np = th ? 8 : 6; g.nonblocking = true; g.redef = true; g.fill = true; g.max_data_ops = th ? 30 : 18; g.checkpoint_each = false; g.atts = false; g.max_dimlen = 3; g.hints = true; /* incl. intra-node aggregation, safe mode */ return g; },
                [](const Program &q, const RunResult &r) { int n = 0; for (auto &op : q.ops) if (!op.skip && (op.kind == OP_PUT || op.kind == OP_WAIT || op.kind == OP_FILL_VAR_REC)) n++; return r.completed && n >= 2 && q.cfg.sim.nprocs >= 2; });
         simple("C06", "one seed = build a file with data, then 1..3 redefinition deltas (attributes growing the header, new fixed / record variables, new alignment) with knob MOVE_UNIT in {1 B..4 KiB} so data moves take many rounds across 1..8 ranks; some redefinitions are aborted (byte-for-byte comparison with the image at ncmpi_redef), some creates are aborted (file must vanish); non-trivial = a redefinition with existing data completed or was aborted",
                [](bool th) { GenParams g; g.redef = true; g.knobs = true; g.align_args = true; g.hints = true; g.max_np = th ? 8 : 6; g.max_data_ops = th ? 24 : 14; g.fill = true; return g; },
@@ -111,7 +111,7 @@ struct Init {
                [](bool th) { GenParams g; g.meta_heavy = true; g.utf8_names = true; g.hints = true; g.knobs = true; g.redef = true; g.max_np = 3; g.max_data_ops = th ? 20 : 12; g.checkpoint_each = true; g.all_forms = false; return g; },
                [has_kind](const Program &q, const RunResult &r) { int n = 0; for (auto &op : q.ops) if (!op.skip && (op.kind == OP_PUT_ATT || op.kind == OP_RENAME_ATT || op.kind == OP_RENAME_VAR || op.kind == OP_RENAME_DIM || op.kind == OP_DEL_ATT)) n++; return r.completed && n >= 3 && has_kind(q, OP_INQ); });
         simple("C13", "one seed = one program of bput/iput/iget/wait/cancel/attach/detach and blocking calls with buffers on both sides of the 4096-byte in-place-swap threshold, all swap hint settings, buffer datatypes with gaps; caller buffers sit between canaries, write buffers are compared byte-for-byte after the completing call, bput buffers are overwritten right after posting, ncmpi_inq_buffer_usage / NC_EINSUFFBUF are compared with the model after every op; non-trivial = a buffered put was posted and completed",
-               [](bool th) { GenParams g; g.nonblocking = true; g.big = true; g.hints = true; g.knobs = true; g.max_np = 3; g.max_data_ops = th ? 30 : 18; return g; },
+               [](bool th) { GenParams g; g.nonblocking = true; g.big = true; g.hints = true; g.knobs = true; g.max_np = 3; g.max_data_ops = th ? 30 : 18; g.erange = true; return g; },
                [has_kind](const Program &q, const RunResult &r) { return r.completed && (has_kind(q, OP_BPUT) || has_kind(q, OP_IPUT)) && has_kind(q, OP_WAIT); });
         simple("C16", "one seed = one schema with any subset of variables in fill mode (set_fill before/after definitions, def_var_fill with/without value), 1..8 ranks, partial writes, redefinitions adding fixed and record variables to files that already hold records, fill_var_rec; never-written elements are read through the API and decoded from the raw image; non-trivial = at least one fill-mode variable existed and was read or checkpointed",
                [](bool th) { GenParams g; g.fill = true; g.redef = true; g.max_np = th ? 8 : 6; g.max_data_ops = th ? 24 : 14; g.checkpoint_each = false; g.knobs = true; return g; },
